@@ -1,5 +1,5 @@
 (** C08 — pinned statements only.  [None] = the Rust code would panic; hashes are abstract. *)
-From Astria Require Import Merkle.MerkleModel Merkle.MerkleSpec Merkle.MerkleSound Merkle.MerkleTotal.
+From Astria Require Import Merkle.MerkleModel Merkle.MerkleSpec Merkle.MerkleSound Merkle.MerkleTotal Merkle.MerkleRootFull.
 
 (** A proof verifies only for the leaf it was built for (else an explicit hash collision). *)
 Theorem C08_sound_leaf : forall (D : Type) (nodeH : D -> D -> D) (eqD : D -> D -> bool),
@@ -36,3 +36,23 @@ Theorem C08_verify_total : forall (D : Type) (nodeH : D -> D -> D) (eqD : D -> D
   end.
 Proof. exact verify_total. Qed.
 Print Assumptions C08_verify_total.
+
+(** The root of the flat tree built by successive pushes equals the RFC 6962 Merkle Tree Hash, for
+    every leaf sequence of up to 2^62 leaves (the 64-bit index arithmetic never panics there). *)
+Theorem C08_root_is_mth : forall (D : Type) (nodeH : D -> D -> D) (emptyH zeroD : D),
+  forall ls : list D, (length ls <= N.to_nat (2 ^ 62))%nat ->
+  exists t, from_leaves D nodeH zeroD ls = Some t /\ root D emptyH t = Some (mth D nodeH emptyH ls).
+Proof. exact root_is_mth. Qed.
+Print Assumptions C08_root_is_mth.
+
+(** The proof constructed for any leaf is the RFC 6962 audit path and reconstructs the root. *)
+Theorem C08_proof_complete : forall (D : Type) (nodeH : D -> D -> D) (emptyH zeroD : D),
+  forall (ls : list D) t i d, (length ls <= N.to_nat (2 ^ 62))%nat ->
+  from_leaves D nodeH zeroD ls = Some t -> nth_error ls i = Some d ->
+  exists p, construct_proof D t (N.of_nat i) = Some (Some p) /\
+            audit_path p = rfc_path D nodeH emptyH i ls /\
+            leaf_index p = N.of_nat i /\
+            tree_size p = tlen D t /\
+            reconstruct_root D nodeH p d = Some (mth D nodeH emptyH ls).
+Proof. exact proof_complete. Qed.
+Print Assumptions C08_proof_complete.
